@@ -25,6 +25,8 @@ VARIANTS = [
     ("C01", "mutant", P + "average.py", "shift = delta * weight / self.entries", "shift = delta / self.entries", "fill ignores the weight in the mean update"),
     ("C01", "mutant", "histogrammar/util.py", "    if math.isnan(x):\n        return y\n    if math.isnan(y) or x < y:\n        return x\n    return y", "    if math.isnan(x):\n        return x\n    if math.isnan(y) or x < y:\n        return x\n    return y", "minplus: NaN no longer missing"),
     ("C01", "mutant", P + "select.py", "return Select(self.quantity, self.cut.zero())", "return Select(self.quantity, self.cut)", "zero() keeps the filled cut"),
+    ("C01", "mutant", P + "deviate.py", "                    + out.mean * out.mean * out.entries\n", "                    + out.mean * out.mean * out.entries\n                    + self.varianceTimesEntries * other.varianceTimesEntries\n", "symmetric cross term that vanishes on singletons: only associativity sees it"),
+    ("C01", "neutral", P + "deviate.py", "out.mean = (self.entries * self.mean + other.entries * other.mean) / (self.entries + other.entries)", "out.mean = (other.entries * other.mean + self.entries * self.mean) / out.entries", "mean merge rewritten with out.entries"),
     ("C01", "neutral", P + "sum.py", "out.sum = self.sum + other.sum", "out.sum = other.sum + self.sum", "reordered summands"),
     ("C01", "neutral", "histogrammar/util.py", "    if math.isnan(y) or x < y:\n        return x\n    return y\n\n\ndef maxplus", "    if math.isnan(y) or x <= y:\n        return x\n    return y\n\n\ndef maxplus", "minplus <= instead of < (same value)"),
     # ---------------- C02
